@@ -239,7 +239,21 @@ Proof. exact pprint_barred_roundtrip. Qed.
 Print Assumptions C01_pprint_barred_roundtrip.
 
 (* ---- Markdown ---- *)
-(* MD_PLACEHOLDER *)
+(* the streaming writer (--omd) read back with --imd, any dedupe / ragged setting, LF or CRLF, heterogeneity included (a change
+   of keys writes a blank line and a new header; the reader takes only the second line of a block for the separator line).
+   Domain (wf_markdown, boolean): records non-empty with unique keys; cells free of LF and unchanged by strings.TrimSpace;
+   keys free of "|" (keys are not escaped) and "," and not the single key "".  VALUES may contain "|" (written "\|" and
+   unescaped by the reader), backslashes, rows of dashes or empty cells -- the two former findings are inside the domain *)
+Theorem C01_markdown_roundtrip :
+  forall w crlf dedupe ragged recs, wf_markdown recs = true ->
+  read_markdown false dedupe ragged (write_markdown w false crlf recs) = Some recs.
+Proof. exact markdown_roundtrip_streaming. Qed.
+Print Assumptions C01_markdown_roundtrip.
+
+Example C01_nonvacuous_markdown :
+  wf_markdown [[(B "a", B "x|y"); (B "b c", B "\|"); (B "", B "")]; [(B "a", B "-"); (B "b c", B ""); (B "", B "---")];
+               [(B "z", bs [195;169;13;65;92]%N)]; [(B "a", B "| - |"); (B "b c", B ":--"); (B "", B "x  y")]] = true.
+Proof. vm_compute. reflexivity. Qed.
 
 Example C01_nonvacuous_pprint :
   wf_pprint false [[(B "a", B "1,2"); (B "b-c", B ""); (B "k", bs [195;169;13;65]%N)]; [(B "a", B "--"); (B "b-c", B "x"); (B "k", B "-x")];
